@@ -30,6 +30,13 @@ SHAPES = {     # input shapes of C05 for finished runs (no fault): the plan / id
                                                 {'name': 's1', 'len': 99_999, 'big': False, 'kinds': ['pair']},
                                                 {'name': 's2', 'len': 99_999, 'big': False, 'kinds': ['half']}],
                                     'star': ['unplaced_single', 'unplaced_single']},
+    # C05-m1's shape: a pooled job of small contigs whose LAST contig has reads but writes no molecule
+    'pooled_small_last_writes_nothing': {'contigs': [{'name': 'sA', 'len': 2500, 'big': False, 'kinds': ['pair', 'single']},
+                                                     {'name': 'big', 'len': 250_000, 'big': True, 'kinds': ['pair']},
+                                                     {'name': 'sC', 'len': 40_000, 'big': False, 'kinds': ['sec_only']}], 'star': []},
+    'pooled_small_last_only_rejects+no_rejects': {'contigs': [{'name': 'sA', 'len': 2500, 'big': False, 'kinds': ['pair', 'single']},
+                                                              {'name': 'sC', 'len': 40_000, 'big': False, 'kinds': ['orphan_r2', 'qcfail']}],
+                                                  'star': []},
 }
 
 
@@ -38,6 +45,10 @@ def layout_for(size, mixed=False, damaged=None):
     contig-per-process mode is complete whatever the plan code does with small contigs. mixed: the D4-sensitive shape."""
     contigs = [{'name': 'chrA', 'len': 250_000, 'big': True, 'kinds': ['pair'] * size[1]},
                {'name': 'chrB', 'len': 100_000, 'big': True, 'kinds': ['pair_rev'] * size[2]}]
+    if damaged == 'star_untagged':   # the unassignable read sits among the UNPLACED unmapped reads (the '*' pass / '*' job)
+        star = ['unplaced_single'] * (size[0] + 1)
+        star.insert(len(star) // 2, 'unplaced_untagged')
+        return {'contigs': contigs, 'star': star}
     if damaged in ('first', 'mid', 'last'):      # one read pair without SM/RX tags and without demultiplexing information in its name, at position k of n
         kinds = contigs[0]['kinds']
         at = {'first': 0, 'mid': len(kinds) // 2 + (len(kinds) % 2), 'last': len(kinds)}[damaged]
@@ -116,6 +127,9 @@ def make_case(cid, workdir, s, method, bamseed, mixed=False, damaged=None, shape
     argv = [inp, '-method', method, '-o', out]
     if s['pipeline'] == 'multi':
         argv += ['--multiprocess', '-tagthreads', '2', '-temp_folder', cdir]
+    no_rejects = bool(shape and shape.endswith('+no_rejects'))
+    if no_rejects:
+        argv += ['--no_rejects']
     # environment / data driven failures (no fault injected; the judgement is the usual one: ok => complete output)
     inp_observed = inp
     if damaged == 'truncated_input':            # verify_and_fix_bam refuses it
@@ -135,7 +149,7 @@ def make_case(cid, workdir, s, method, bamseed, mixed=False, damaged=None, shape
         fault['target'] = {'@unsorted': out + '.unsorted', '@out': out}[fault['target']]
     return {'id': cid, 'argv': argv, 'out': out, 'inp': inp, 'inp_observed': inp_observed, 'truth': truth, 'layout': layout, 'scn': s, 'method': method,
             'fault': fault, 'expect_hang': hang,
-            'prerun': bool(s['prev']) and damaged not in ('truncated_input', 'bad_temp_folder', 'unsorted_path_blocked'), 'bamseed': bamseed, 'mixed': mixed, 'damaged': damaged or '', 'shape': shape or '', 'snapshots': True,
+            'prerun': bool(s['prev']) and damaged not in ('truncated_input', 'bad_temp_folder', 'unsorted_path_blocked'), 'bamseed': bamseed, 'mixed': mixed, 'damaged': damaged or '', 'shape': shape or '', 'snapshots': True, 'no_rejects': no_rejects,
             'stale_old_index': bool(s['prev'])}
 
 
@@ -155,7 +169,7 @@ def events_for(case, res, tid):
         del r['rg'], r['flag']
     pe = res['events']['parent']
     base = {'tid': tid, 'pipeline': case['scn']['pipeline'], 'method': case['method'], 'scn': case['scn'], 'mixed': case['mixed'],
-            'damaged': case['damaged'], 'shape': case['shape'],
+            'damaged': case['damaged'], 'shape': case['shape'], 'no_rejects': case['no_rejects'],
             'bamseed': case['bamseed'], 'fault': {k: v for k, v in (case['fault'] or {}).items() if k != 'soft'} or {'site': 'none'}}
     evs = []
     writes = [e for e in pe if e['ev'] == 'status_write']
@@ -213,7 +227,7 @@ def main():
             if s['at'] == 'done' and s['kind'] == 'none' and s['tries'] == 0 and sum(s['size']) > 0:
                 # data-driven failure: the input holds a read that cannot be assigned to a cell (no SM tag, no demultiplexing
                 # information in its name) at position k of n - no fault is injected
-                for pos in ('first', 'mid', 'last'):
+                for pos in ('first', 'mid', 'last', 'star_untagged'):
                     for m in ('nla', 'chic'):
                         cases.append(make_case(len(cases) + 1, workdir, s, m, rng.randrange(1 << 30), damaged=pos))
                 for env_failure in ('truncated_input', 'index_missing', 'bad_temp_folder', 'unsorted_path_blocked'):
